@@ -35,9 +35,7 @@ type NewCriterionAnchoringApplierParams struct {
 }
 
 func (n *NewCriterionAnchoringApplier) BlankParams() FunctionParams {
-	return &utils.Map{
-		"randomSeed": 0,
-	}
+	return &utils.Map{}
 }
 
 func addedCriterionName(criteria *model.Criteria, refPointDif model.Alternative) string {
